@@ -264,6 +264,7 @@ Qed.
 
 Ltac fin_done :=
   first [ apply tail_fin
+        | rewrite el_halt by (cbn [st_stat]; congruence); repeat split; reflexivity
         | cbn [exec_list exec st_stat]; st_simp; repeat split; reflexivity ].
 
 Lemma sort_loop_fin c b p tag loc names stop segs :
@@ -641,3 +642,212 @@ Proof.
       * step. erewrite ex_par; [| exact Hw2 | exact Hc2].
         rewrite (ne_cons (Par w1) [Par w2]). cbn [app orb]. fin_done.
 Qed.
+
+Lemma nm_entry_ok c k :
+  fin (exec_list c (nm_guards ++ nm_prog k BSorted) (init_state c))
+      (if nm_valid c then nm_stage k c (c_rules c) else ([], true)).
+Proof.
+  unfold nm_guards. cbn [app]. rewrite reset_ok. unfold nm_valid.
+  step. cbn [exec eval_guard]. destruct (Z.leb_spec (c_n c) 0) as [H1|H1]; st_simp.
+  { replace (0 <? c_n c)%Z with false by lia. cbn [andb]. fin_done. }
+  step. cbn [exec eval_guard]. destruct (Z.leb_spec (c_m c) 0) as [H2|H2]; st_simp.
+  { replace (0 <? c_m c)%Z with false by lia. rewrite andb_false_r. cbn [andb]. fin_done. }
+  step. cbn [exec eval_guard]. destruct (Z.ltb_spec (zlen (c_rules c)) (c_n c + c_m c)) as [H3|H3]; st_simp.
+  { replace (c_n c + c_m c <=? zlen (c_rules c))%Z with false by lia. rewrite andb_false_r. cbn [andb]. fin_done. }
+  replace (0 <? c_n c)%Z with true by lia. replace (0 <? c_m c)%Z with true by lia.
+  replace (c_n c + c_m c <=? zlen (c_rules c))%Z with true by lia. cbn [andb].
+  apply (@nm_tail_fin c k BSorted [] (c_names c)); assumption.
+Qed.
+
+Lemma nm_sel_entry_ok c k :
+  fin (exec_list c (nm_sel_guards ++ nm_prog k BLocal) (init_state c))
+      (if nm_sel_valid c then nm_stage k c (sort_desc (sel c (c_names c))) else ([], true)).
+Proof.
+  unfold nm_sel_guards. cbn [app]. rewrite reset_ok. unfold nm_sel_valid, nm_valid.
+  step. cbn [exec eval_guard]. destruct (Z.leb_spec (c_n c) 0) as [H1|H1]; st_simp.
+  { replace (0 <? c_n c)%Z with false by lia. cbn [andb]. fin_done. }
+  step. cbn [exec eval_guard]. destruct (Z.leb_spec (c_m c) 0) as [H2|H2]; st_simp.
+  { replace (0 <? c_m c)%Z with false by lia. rewrite andb_false_r. cbn [andb]. fin_done. }
+  step. cbn [exec eval_guard]. st_simp.
+  destruct (Z.eqb_spec (c_n c + c_m c) (zlen (c_names c))) as [H4|H4]; st_simp.
+  2:{ rewrite andb_false_r. cbn [andb]. fin_done. }
+  step. cbn [exec eval_guard]. destruct (Z.ltb_spec (zlen (c_rules c)) (c_n c + c_m c)) as [H3|H3]; st_simp.
+  { replace (c_n c + c_m c <=? zlen (c_rules c))%Z with false by lia. rewrite andb_false_r. cbn [andb]. fin_done. }
+  replace (0 <? c_n c)%Z with true by lia. replace (0 <? c_m c)%Z with true by lia.
+  replace (c_n c + c_m c <=? zlen (c_rules c))%Z with true by lia. cbn [andb].
+  step. cbn [exec]. st_simp. rewrite select_fail. cbn [app].
+  destruct (all_known c (c_names c)) eqn:Ek; st_simp.
+  2:{ fin_done. }
+  step. cbn [exec]. st_simp.
+  apply (@nm_tail_fin c k BLocal _ (c_names c)); try assumption.
+  cbn [bl]. unfold zlen in *. rewrite sort_desc_length, (sel_length c _ Ek). lia.
+Qed.
+
+(* ------------------------------------------------------------------ *)
+(* DAG layers *)
+Definition dag_body : list instr :=
+  [ISelect MSkip; ICond (LenGe 1) [IPar BLocal WAll CLen true]; IFailIfErrs].
+
+Definition layer_step (c : cfg) (s : mstate) (layer : list string) : mstate :=
+  match st_stat s with
+  | Running => exec_list c dag_body (set_names s layer)
+  | _ => s
+  end.
+
+Lemma layer_step_char c loc names stop segs ly :
+  layer_step c (mkSt loc names false stop segs (rk segs) Running) ly =
+  let l := sel c ly in
+  mkSt l ly (any_fail l) (stop || existsb estop l) (segs ++ ne [Par l]) (rk (segs ++ ne [Par l]))
+       (if any_fail l then RetErr else Running).
+Proof.
+  unfold layer_step, dag_body. st_simp.
+  step. cbn [exec]. st_simp. rewrite select_skip. cbn [app]. st_simp.
+  cbv zeta. set (l := sel c ly).
+  step. rewrite ex_cond. cbn [eval_cond st_local].
+  assert (Hpar : (if Nat.leb 1 (length l)
+                  then exec_list c [IPar BLocal WAll CLen true]
+                                 (mkSt l ly false stop segs (rk segs) Running)
+                  else mkSt l ly false stop segs (rk segs) Running) =
+                 mkSt l ly (any_fail l) (stop || existsb estop l) (segs ++ ne [Par l])
+                      (rk (segs ++ ne [Par l])) Running).
+  { destruct l as [|x l'] eqn:El.
+    - cbn [length Nat.leb any_fail existsb ne filter]. now rewrite orb_false_r, app_nil_r.
+    - cbn [length Nat.leb]. rewrite <- El. step. erewrite ex_par; [| reflexivity | reflexivity].
+      reflexivity. }
+  rewrite Hpar. step. cbn [exec]. st_simp. destruct (any_fail l); reflexivity.
+Qed.
+
+Definition dagres (s : mstate) (segs : list seg) (err : bool) : Prop :=
+  st_segs s = segs /\ st_map s = rk segs /\ st_stat s = (if err then RetErr else Running).
+
+Lemma fold_halt c layers : forall s, st_stat s <> Running -> fold_left (layer_step c) layers s = s.
+Proof.
+  induction layers as [|ly rest IH]; intros s H; [reflexivity|].
+  cbn [fold_left]. unfold layer_step at 2. destruct (st_stat s) eqn:E; try congruence; apply IH; congruence.
+Qed.
+
+Lemma dag_fold c layers : forall loc names stop segs,
+  dagres (fold_left (layer_step c) layers (mkSt loc names false stop segs (rk segs) Running))
+         (segs ++ fst (dag_stage c layers)) (snd (dag_stage c layers)).
+Proof.
+  induction layers as [|ly rest IH]; intros loc names stop segs.
+  - cbn [fold_left dag_stage fst snd]. rewrite app_nil_r. repeat split.
+  - cbn [fold_left dag_stage]. rewrite layer_step_char. cbv zeta.
+    destruct (any_fail (sel c ly)) eqn:Ef.
+    + rewrite fold_halt by (cbn [st_stat]; congruence). repeat split.
+    + specialize (IH (sel c ly) ly (stop || existsb estop (sel c ly))%bool (segs ++ ne [Par (sel c ly)])).
+      destruct (dag_stage c rest) as [sg e]. cbn [fst snd] in *.
+      rewrite app_assoc. exact IH.
+Qed.
+
+Lemma ExecuteDAGModel_ok c :
+  fin (exec_list c ExecuteDAGModel (init_state c)) (spec EExecuteDAGModel c).
+Proof.
+  unfold ExecuteDAGModel. rewrite reset_ok. cbn [spec].
+  step. rewrite ex_cond. cbn [eval_cond].
+  destruct (c_layers c) as [|ly rest] eqn:El.
+  - cbn [dag_stage]. step. cbn [exec]. st_simp. fin_done.
+  - rewrite <- El. step. rewrite ex_for.
+    change (fun s layer => match st_stat s with
+                           | Running => exec_list c [ISelect MSkip; ICond (LenGe 1) [IPar BLocal WAll CLen true]; IFailIfErrs] (set_names s layer)
+                           | _ => s end) with (layer_step c).
+    destruct (dag_fold c (c_layers c) [] (c_names c) (c_stop0 c) []) as (H1 & H2 & H3).
+    cbn [app] in *.
+    set (s := fold_left _ _ _) in *.
+    destruct (snd (dag_stage c (c_layers c))) eqn:Ee.
+    + rewrite el_halt by congruence. unfold fin. rewrite Ee. auto.
+    + step. rewrite H3. cbn [exec]. cbn [exec_list]. unfold fin, set_stat. rewrite Ee.
+      cbn [st_segs st_stat st_map]. auto.
+Qed.
+
+(* ------------------------------------------------------------------ *)
+Theorem hand_fin : forall (e : entry) (c : cfg), fin (exec_list c (hand e) (init_state c)) (spec e c).
+Proof.
+  intros e c. destruct e; cbn [hand spec].
+  - apply (Execute_sorted_ok c false).
+  - apply (Execute_sorted_ok c true).
+  - apply ExecuteConcurrent_ok.
+  - apply ExecuteMixModel_ok.
+  - apply ExecuteMixModelWithStopTagDirect_ok.
+  - apply (@sel_sorted_ok c GEmptyEnts Collect false true); [auto | discriminate].
+  - apply (@sel_sorted_ok c GEmptySorted ByFlag false true); [auto | discriminate].
+  - apply (@sel_sorted_ok c GEmptySorted ByFlag false false); [auto | discriminate].
+  - apply (@sel_sorted_ok c GEmptySorted ByFlag true true); [auto | discriminate].
+  - apply (@sel_sorted_ok c GEmptySorted ByFlag true false); [auto | discriminate].
+  - apply ExecuteSelectedRulesConcurrent_ok.
+  - apply ExecuteSelectedRulesMixModel_ok.
+  - apply ExecuteInverseMixModel_ok.
+  - apply ExecuteSelectedRulesInverseMixModel_ok.
+  - apply (nm_entry_ok c SortConc).
+  - apply (nm_entry_ok c ConcSort).
+  - apply (nm_entry_ok c ConcConc).
+  - apply (nm_sel_entry_ok c SortConc).
+  - apply (nm_sel_entry_ok c ConcSort).
+  - apply (nm_sel_entry_ok c ConcConc).
+  - apply ExecuteDAGModel_ok.
+Qed.
+
+Theorem hand_sound : forall (e : entry) (c : cfg), run_prog (hand e) c = spec_outcome e c.
+Proof. intros e c. apply fin_sound, hand_fin. Qed.
+
+Lemma spec_outcome_stat e c :
+  o_stat (spec_outcome e c) = (if o_err (spec_outcome e c) then RetErr else RetNil).
+Proof. unfold spec_outcome. destruct (spec e c) as [segs err]. reflexivity. Qed.
+
+Corollary hand_never_crashes : forall e c,
+  o_stat (run_prog (hand e) c) = RetNil \/ o_stat (run_prog (hand e) c) = RetErr.
+Proof.
+  intros e c. rewrite hand_sound, spec_outcome_stat. destruct (o_err (spec_outcome e c)); auto.
+Qed.
+
+Corollary hand_err_iff : forall e c,
+  o_err (run_prog (hand e) c) = true <-> o_stat (run_prog (hand e) c) = RetErr.
+Proof.
+  intros e c. rewrite hand_sound, spec_outcome_stat.
+  destruct (o_err (spec_outcome e c)); split; intro; congruence.
+Qed.
+
+(* the outcome does not depend on what the previous call left in the result map *)
+Definition with_prev (c : cfg) (p : option (list string)) : cfg :=
+  mkCfg (c_rules c) (c_b c) (c_n c) (c_m c) (c_names c) (c_layers c) (c_stop0 c) p.
+
+Lemma dag_stage_prev c p layers : dag_stage (with_prev c p) layers = dag_stage c layers.
+Proof.
+  induction layers as [|ly rest IH]; [reflexivity|].
+  cbn [dag_stage]. rewrite IH. destruct c; reflexivity.
+Qed.
+
+Lemma spec_prev e c p : spec e (with_prev c p) = spec e c.
+Proof.
+  destruct e; try (destruct c; reflexivity).
+  cbn [spec]. rewrite dag_stage_prev. destruct c; reflexivity.
+Qed.
+
+Theorem hand_prev_irrelevant : forall e c p, run_prog (hand e) (with_prev c p) = run_prog (hand e) c.
+Proof. intros. rewrite !hand_sound. unfold spec_outcome. now rewrite spec_prev. Qed.
+
+Corollary hand_no_stale : forall e c p,
+  o_map (run_prog (hand e) (mkCfg (c_rules c) (c_b c) (c_n c) (c_m c) (c_names c) (c_layers c) (c_stop0 c) p)) =
+  o_map (run_prog (hand e) c).
+Proof. intros e c p. exact (f_equal o_map (hand_prev_irrelevant e c p)). Qed.
+
+Corollary hand_no_stale_segs : forall e c p,
+  o_segs (run_prog (hand e) (mkCfg (c_rules c) (c_b c) (c_n c) (c_m c) (c_names c) (c_layers c) (c_stop0 c) p)) =
+  o_segs (run_prog (hand e) c).
+Proof. intros e c p. exact (f_equal o_segs (hand_prev_irrelevant e c p)). Qed.
+
+Corollary hand_no_stale_err : forall e c p,
+  o_err (run_prog (hand e) (mkCfg (c_rules c) (c_b c) (c_n c) (c_m c) (c_names c) (c_layers c) (c_stop0 c) p)) =
+  o_err (run_prog (hand e) c).
+Proof. intros e c p. exact (f_equal o_err (hand_prev_irrelevant e c p)). Qed.
+
+(* the result map is never nil after a call, and holds exactly the keys of the executed rules *)
+Corollary hand_map : forall e c,
+  o_map (run_prog (hand e) c) = Some (result_keys (executed (o_segs (run_prog (hand e) c)))).
+Proof.
+  intros e c. rewrite hand_sound. unfold spec_outcome. destruct (spec e c); reflexivity.
+Qed.
+
+Print Assumptions hand_sound.
+Print Assumptions hand_no_stale.
+Print Assumptions sort_desc_stable.
